@@ -31,5 +31,5 @@ try:
         print(p, r.returncode, fb, flush=True)
 finally:
     subprocess.run(['git', '-C', '/repo', 'worktree', 'remove', '--force', wt])
-json.dump(res, open(os.path.join(d, 'result.json'), 'w'), indent=1)
+json.dump(res, open(os.path.join(d, os.environ.get('REFACTOR_OUT', 'result.json')), 'w'), indent=1)
 print(json.dumps({'dir': os.path.basename(d), 'alarms': [p for p, v in res.items() if isinstance(v, dict) and v['rc'] != 0]}))
